@@ -1182,9 +1182,10 @@ def new_stats():
 
 class C14:
     id = PID
-    props_files = ['SmoothProps/C14.lean']
-    props_module = 'SmoothProps.C14'
-    lean_targets = ['SmoothProps.C14']
+    # SrcTieLogic: the scalar decision logic regenerated from the C++ source by tools/gen_logic.py is the model (C14All = C14 + SrcTieLogic)
+    props_files = ['SmoothProps/C14.lean', 'SmoothProps/SrcTieLogic.lean']
+    props_module = 'SmoothProps.C14All'
+    lean_targets = ['SmoothProps.C14All']
     rule = ('inputs generated from the seed: fit_spline_1d per spec (PiecewiseLinear, FixedDerCubic<1|2,1|2>, MinDerivative<5|6,3,3>) '
             'x 1..39 segments x sampling intervals 1e-2..1e2 (nearly uniform / neighbouring ratios <= 1e3 interpolating, <= 10 '
             'derivative-minimising) x data magnitudes x zero/non-zero boundary values; fit_spline on SO3, SE3, SE2, R^3 x 5 specs x '
